@@ -8,3 +8,4 @@ ASSUMPTIONS = ["A-MATH: a change of alignment reference / z-axis convention acts
                "D-matrices (dfun.D_matrix_conj/2j<=3) and the proved SU2M algebra / Euler-angle extraction (angle.SU2M.*)"]
 
 from vt.contracts import dfun_sym, iface_amp, su2  # noqa: F401,E402
+from vt.contracts import dgroup  # noqa: F401,E402  (D(R1) D(R2) = D(R1 R2): representation + homomorphism lemma)
